@@ -242,6 +242,11 @@ Theorem C10_raw_list_semantics : forall s,
                  | Err e => raw_drop_many s ps = (s, Err IndexError) end).
 Proof. exact raw_list_semantics. Qed.
 
+(* raw.reverse() as repaired (pop all, extend): the raw list reversed, every view still exact
+   (C10_view_inv_history covers RReverse / VReverse) *)
+Theorem C10_raw_reverse : forall s, exists s', raw_reverse s = (s', OkNone) /\ items s' = rev (items s).
+Proof. exact raw_reverse_spec. Qed.
+
 (* What harness/c10.py evaluates (inside Coq) on every state the implementation dumped: when the checker
    says true, the dumped state satisfies the hypothesis of the theorems above. *)
 Theorem C10_dumped_state_hypothesis_sound : forall s, all_inv_b s = true -> AllInv s.
